@@ -46,6 +46,15 @@ def cells(tier="quick"):
                     for nr in NRS:
                         for rc_ in RCODES:
                             out.append((typ, code, False, False, d, nr, rc_))
+                if code in (1, 2):
+                    for d in (0.0, 1.0):
+                        for nr in NRS:
+                            for rc_ in SPECIAL_RESULTS:
+                                if rc_ == "method-4.05" and code == 1:
+                                    continue
+                                if d and rc_ in ("missing-4.04", "method-4.05"):
+                                    continue  # no handler runs: nothing can be slow
+                                out.append((typ, code, False, False, d, nr, rc_))
                 if typ == NON:
                     for d in (0.0, 1.0):
                         for nr in (None, 26):
@@ -84,10 +93,18 @@ def plan(tier, seed):
     return [{"name": "c10-%d" % i, "seed": seed * 1000 + i, "index": i, "of": n, "tier": tier} for i in range(n)]
 
 
+# results that do not come out of a handler's return statement: the library builds these responses itself
+SPECIAL_RESULTS = {"raise-4.00": 128, "raise-5.03": 163, "crash-5.00": 160, "missing-4.04": 132, "method-4.05": 133}
+
+
+def eff_code(rcode):
+    return SPECIAL_RESULTS.get(rcode, rcode)
+
+
 def suppressed(nr, rcode):
     if nr is None:
         return False
-    return bool(nr & (1 << ((rcode >> 5) - 1)))
+    return bool(nr & (1 << ((eff_code(rcode) >> 5) - 1)))
 
 
 def expected(cell, ead):
@@ -103,7 +120,7 @@ def expected(cell, ead):
         if code not in REQ_CODES:
             rcode_eff = None  # some 4.xx/5.xx; C09 pins the code
         else:
-            rcode_eff = rcode
+            rcode_eff = eff_code(rcode)
         sup = suppressed(nr, rcode) if rcode_eff is not None else False
         if typ == CON:
             if mc:
@@ -147,7 +164,13 @@ class Node:
 
         loop = self.loop
         self.net = simnet.SimNet(loop)
-        site = testsite.make_site(loop, self.hlog)
+        import aiocoap.resource as R
+
+        class GetOnly(R.Resource):
+            async def render_get(self, request):
+                return aiocoap.Message(payload=b"getonly")
+
+        site = testsite.make_site(loop, self.hlog, {("getonly",): GetOnly()})
         self.srv = await simnet.make_context(self.net, "10.0.0.1", 5683, site)
 
         def on_msg(peer, src, m, raw):
@@ -182,10 +205,13 @@ class Node:
         opts = []
         payload = b""
         if 1 <= code <= 31:
-            opts.append((11, b"r"))
+            opts.append((11, {"missing-4.04": b"nope", "method-4.05": b"getonly"}.get(rcode, b"r")))
             if nr is not None:
                 opts.append((258, rc.uint_bytes(nr)))
-            payload = b"d=%s;c=%d;p=x" % (repr(d).encode(), rcode)
+            if rcode in SPECIAL_RESULTS:
+                payload = b"d=%s;c=%d;p=x;x=%s" % (repr(d).encode(), eff_code(rcode), rcode.split("-")[0].encode())
+            else:
+                payload = b"d=%s;c=%d;p=x" % (repr(d).encode(), rcode)
         elif code != 0:
             payload = b"resp"
         tok = token if code != 0 else b""
